@@ -134,12 +134,24 @@ impl<C: Config, Q: Query> Snapshot<C, Q> {
             self.computing_lock_to_clean_query(
                 cleaned_edges,
                 None,
+                None,
                 caller_information,
                 lock_guard,
             )
             .await;
         } else {
             let forward_edges = self.forward_edge_order().await.unwrap();
+
+            // The set is rebuilt from what the callees report now, so what
+            // this query has "seen" of their sets has to move along.
+            // Otherwise a callee whose set changes and later changes back to
+            // the one seen at the last execution looks unchanged, and this
+            // query keeps the set it rebuilt in between.
+            let mut observations = self
+                .forward_edge_observation()
+                .await
+                .map(|x| (*x.0).clone())
+                .unwrap_or_default();
 
             let mut new_tfcs = FxHashSet::default();
 
@@ -162,6 +174,13 @@ impl<C: Config, Q: Query> Snapshot<C, Q> {
                             .iter()
                             .copied(),
                     );
+
+                    if let Some(observation) = observations.get_mut(&x) {
+                        observation
+                            .seen_transitive_firewall_callees_fingerprint =
+                            callee_info
+                                .transitive_firewall_callees_fingerprint();
+                    }
                 }
             }
 
@@ -170,6 +189,7 @@ impl<C: Config, Q: Query> Snapshot<C, Q> {
             self.computing_lock_to_clean_query(
                 cleaned_edges,
                 Some(new_tfc),
+                Some(observations),
                 caller_information,
                 lock_guard,
             )
